@@ -232,7 +232,8 @@ def main(argv=None):
         inlined |= set(r['inlined'])
         modular |= set(r['modular'])
         for u in r['unsupported']:
-            if ex.contracts[r['contract']].opts.get('optional_symbolic') and 'budget' in u:
+            _o = ex.contracts[r['contract']].opts
+            if (_o.get('optional_symbolic') or _o.get('symbolic_tier') == 'thorough') and 'budget' in u:
                 incomplete_optional.append({'contract': r['contract'], 'case': r['case'], 'what': u})
             else:
                 unsupported.append({'contract': r['contract'], 'case': r['case'], 'what': u})
